@@ -471,6 +471,33 @@ pub fn stream(storage: bool) -> BoxedStrategy<Vec<u8>> {
             b.extend_from_slice(&e[..keep.min(e.len())]);
             b
         }),
+        // a record that carries another complete record (and a few more bytes) in its payload, its own marker intact or
+        // damaged, between ordinary messages
+        3 => (msgs(0..3), g::message(g::MsgParams { storage: st, large: false, ..Default::default() }), any::<u32>(), vec(any::<u8>(), 1..6), prop::option::weighted(0.6, (0usize..4, any::<u8>())), msgs(0..3)).prop_map(
+            move |(a, inner, id, extra, damage, b)| {
+                let mut payload = refcodec::encode(&inner);
+                payload.extend(extra);
+                let outer = RMsg {
+                    storage: if storage { Some(RStorage { secs: 7, micros: 8, ecu: "OUT".to_string() }) } else { None },
+                    htyp: 0x20,
+                    mcnt: 1,
+                    len: (4 + 4 + payload.len()) as u16,
+                    ecu: None,
+                    seid: None,
+                    tmsp: None,
+                    ext: None,
+                    payload: RPayload::NonVerbose(id, payload),
+                };
+                let mut e = refcodec::encode(&outer);
+                if let (true, Some((k, v))) = (storage, damage) {
+                    e[k] = if e[k] == v { v ^ 1 } else { v };
+                }
+                let mut out = cat(&a);
+                out.extend(e);
+                out.extend(cat(&b));
+                out
+            }
+        ),
         // truncated at an arbitrary offset
         16 => (msgs(1..6), any::<u16>()).prop_map(move |(ms, t)| {
             let mut b = cat(&ms);
